@@ -93,7 +93,10 @@ func (o *Obligation) WithFacts(fs []Fact) *Obligation {
 }
 
 // Req attaches the textual requirement.
-func (o *Obligation) Req(req ...string) *Obligation { o.Required = append(o.Required, req...); return o }
+func (o *Obligation) Req(req ...string) *Obligation {
+	o.Required = append(o.Required, req...)
+	return o
+}
 
 // KnownFindings file format.
 type KnownFindings struct {
